@@ -16,6 +16,7 @@ class Scope:
         self.bound, self.globals, self.nonlocals = set(), set(), set()
         self.children = []
         self.uses = set()
+        self.aug = set()         # names that are the target of an augmented assignment directly in this scope
 
     def functionlike(self):
         return self.kind in ('function', 'lambda', 'comp')
@@ -173,6 +174,8 @@ class Resolver:
             return
         if isinstance(n, ast.AugAssign):
             # target is read and written; evaluation order: target (load), value, store
+            if isinstance(n.target, ast.Name):
+                scope.aug.add(n.target.id)
             self.visit(n.target, scope)
             self.visit(n.value, scope)
             return
